@@ -240,7 +240,9 @@ func genC07Authz(g *Gen) any {
 	sc.BurstDelayS = g.Pick(0, 0, 0, 40, 100)
 	nu := g.Int(1, 2)
 	for u := 0; u < nu; u++ {
-		usr := C15User{Cap: g.Pick(1, 2, 4, 0), UpCredit: int64(g.Pick(1, 1000, 1e9)), DownCredit: int64(g.Pick(1, 1000, 1e9)), ExpiryS: 86400, Pinned: g.Bool(0.3)}
+		// "credit left" means left for the whole run: a pinned session's own few
+		// hundred bytes are charged by the once-a-minute upload during the delay
+		usr := C15User{Cap: g.Pick(1, 2, 4, 0), UpCredit: int64(g.Pick(1e6, 1e7, 1e9)), DownCredit: int64(g.Pick(1e6, 1e7, 1e9)), ExpiryS: 86400, Pinned: g.Bool(0.3)}
 		switch g.Int(0, 6) {
 		case 0:
 			usr.UpCredit = int64(g.Pick(0, -1, -1000))
@@ -264,7 +266,7 @@ func genC07Authz(g *Gen) any {
 
 func genC07UnauthPeers(g *Gen) any {
 	sc := &C09Scenario{Seed: g.Rng.Uint64(), Partial: g.Bool(0.5)}
-	kinds := []string{"cloak-unauth-uid", "cloak-bad-method", "cloak-unauth-uid", "cloak-bad-method", "cloak-mutated", "cloak-replay"}
+	kinds := []string{"cloak-unauth-uid", "cloak-bad-method", "cloak-unauth-uid", "cloak-bad-method", "cloak-bad-method-live", "cloak-bad-method-live", "cloak-mutated", "cloak-replay"}
 	n := g.Int(1, 2)
 	for i := 0; i < n; i++ {
 		sc.Peers = append(sc.Peers, genC09Peer(g, kinds[g.Rng.IntN(len(kinds))]))
